@@ -934,6 +934,10 @@ impl ArchiveMeta {
         let mut buf = [0u8; mem::size_of::<usize>()];
         source.read_exact(&mut buf)?;
         res.bucket_count = usize::from_ne_bytes(buf);
+        if res.bucket_count == 0 {
+            // We are going to divide by this.
+            return Err(io::Error::other("archive with zero buckets"))
+        }
         Ok(res)
     }
 
@@ -1452,7 +1456,8 @@ impl<'a> StorageRead<'a> {
                 Ok(res)
             }
             ReadInner::File { ref mut file }  => {
-                let mut buf = Vec::with_capacity(len);
+                // Don’t pre-allocate: len may come from corrupt data.
+                let mut buf = Vec::new();
                 file.deref_mut().take(
                     u64::try_from(len).map_err(|_| {
                         // This only happens on 128 bit systems with
